@@ -199,6 +199,7 @@ class BinarySearchTreeAdapted(Sampling):
         return res
 
     def sample_with_us(self, us: np.array):
+        us = np.array(us, dtype=float)  # work on a copy: the residual probabilities are subtracted in place below
         # find the bucket where to sample the state
         bucket_positions = np.searchsorted(self._cum_ps, us)
         bucket_coordinates = [
